@@ -45,11 +45,13 @@ def helper_module():
     for name, (mut, probe) in CHANNELS.items():
         parts.append("function e.mutate_%s(frame) %s return 'm' end" % (name, mut))
         parts.append("function e.probe_%s(frame) return %s end" % (name, probe))
+    parts.append("function e.reqglobal(frame) return require('Module:gstate').get() end")
     parts.append("return e")
     return "\n".join(parts)
 
 
 STATE_MOD = "local v = 'nil'\nlocal e = {}\nfunction e.set(x) v = x end\nfunction e.get() return v end\nreturn e"
+GSTATE_MOD = "gcounter = (gcounter or 0) + 1\nlocal e = {}\nfunction e.get() gcalls = (gcalls or 0) + 1 return tostring(gcounter) .. '/' .. tostring(gcalls) end\nreturn e"
 COUNT_MOD = "local counter = 0\nlocal e = {}\nfunction e.count(frame) counter = counter + 1 return tostring(counter) end\nreturn e"
 
 PAGES = {
@@ -62,6 +64,7 @@ PAGES = {
     "inv_err": "{{#invoke:h|err}} {{#invoke:h|ok|2}}",
     "count": "{{#invoke:cnt|count}}",
     "alias": "{{#myalias:1|y|n}} {{ovr|q}}",
+    "reqglobal": "{{#invoke:h|reqglobal}} {{#invoke:h|reqglobal}}",
 }
 for _c in CHANNELS:
     PAGES["chan_" + _c] = "{{#invoke:h|probe_%s}}{{#invoke:h|mutate_%s}}{{#invoke:h|probe_%s}}" % (_c, _c, _c)
@@ -100,6 +103,7 @@ def make_db(d):
     ctx.add_page("Module:h", 828, helper_module(), model="Scribunto")
     ctx.add_page("Module:state", 828, STATE_MOD, model="Scribunto")
     ctx.add_page("Module:cnt", 828, COUNT_MOD, model="Scribunto")
+    ctx.add_page("Module:gstate", 828, GSTATE_MOD, model="Scribunto")
     ctx.add_page("Module:data", 828, "return {a = 1}", model="Scribunto")
     ctx.add_page("Module:_sandbox_phase1", 828, "", model="Scribunto")
     ctx.db_conn.commit()
@@ -220,6 +224,8 @@ def work(payload, skip, report):
                 if len(hist) == 1 and last[2] == "expand":
                     if last[1].startswith("chan_") and got["result"] != expected_channel_output():
                         acc.violation("lua_invocations_isolated_within_page:" + last[1][5:], case, got["result"], expected_channel_output())
+                    if last[1] == "reqglobal" and got["result"] != "1/1 1/1":
+                        acc.violation("required_module_globals_reset", case, got["result"], "1/1 1/1")
                     if last[1] == "count" and got["result"] != "1":
                         acc.violation("module_level_state_reset", case, got["result"], "1")
                 acc.distinct("observations", got)
